@@ -10,6 +10,7 @@ KEYS = ['parso.python.diff._update_positions', 'parso.python.diff._is_indentatio
         # copy conditions, helper by helper
         'parso.python.diff._flows_finished', 'parso.python.diff._func_or_class_has_suite',
         'parso.python.diff._suite_or_file_input_is_valid', 'parso.python.diff._is_flow_node',
+        'parso.python.diff.DiffParser._get_old_line_stmt',
         # the diff branch of the API: the cached module is reused only for identical lines, the updated module is filed with
         # the new lines
         'parso.grammar.Grammar.parse']
